@@ -5,6 +5,7 @@ import (
 	"reflect"
 	"strings"
 	"testing"
+	"time"
 
 	"github.com/mfcochauxlaberge/jsonapi"
 	"pgregory.net/rapid"
@@ -52,9 +53,13 @@ func readBack(ts *gen.TypeSpec, model map[string]any, res jsonapi.Resource, impl
 			}
 
 			got := res.Get(a.Name)
-			if ok, why := oracle.SameValue(a, want, got); !ok {
+			if ok, why := oracle.SameValue(a, want, got); !ok || !sameZone(want, got) {
 				if isNilValue(want) && isNilValue(got) {
 					continue
+				}
+
+				if ok {
+					why = "same instant but another zone offset: the value read is not the value that was set"
 				}
 
 				msg = fmt.Sprintf("%s: attribute %q (%s) reads %s, want %s: %s", impl, a.Name, gen.KindName(a.Type, a.Nullable), gen.Show(got), gen.Show(want), why)
@@ -99,6 +104,29 @@ func readBack(ts *gen.TypeSpec, model map[string]any, res jsonapi.Resource, impl
 	}
 
 	return msg
+}
+
+// sameZone: for time values, "the value most recently set" includes its zone
+// offset (two resources given the same calls must be indistinguishable).
+func sameZone(a, b any) bool {
+	an, av := gen.Deref(a)
+	bn, bv := gen.Deref(b)
+
+	if an || bn {
+		return true
+	}
+
+	at, ok1 := av.(time.Time)
+	bt, ok2 := bv.(time.Time)
+
+	if !ok1 || !ok2 {
+		return true
+	}
+
+	_, ao := at.Zone()
+	_, bo := bt.Zone()
+
+	return ao == bo
 }
 
 // readBackType draws a type whose relationships carry no FromOne (a struct tag
@@ -266,7 +294,7 @@ func TestC17Equality(t *testing.T) {
 			vals2[k] = gen.Clone(v)
 		}
 
-		aspects := []string{"none", "type-name", "attr-name", "value", "id"}
+		aspects := []string{"none", "type-name", "attr-name", "value", "id", "extra-attr", "extra-rel"}
 		if len(ts.Rels) > 0 {
 			aspects = append(aspects, "rel-name", "rel-value")
 		}
@@ -279,6 +307,17 @@ func TestC17Equality(t *testing.T) {
 			for i := range ts2.Rels {
 				ts2.Rels[i].FromType = "u"
 			}
+		case "extra-attr":
+			// b has every field of a plus one more attribute (holding its zero value or not)
+			extra := jsonapi.Attr{Name: "zzextra", Type: rapid.SampledFrom(gen.Kinds).Draw(t, "extrakind"), Nullable: rapid.Bool().Draw(t, "extranullable")}
+			ts2.Attrs = append(ts2.Attrs, extra)
+
+			if rapid.Bool().Draw(t, "extraset") {
+				vals2["zzextra"] = gen.Value(t, extra, "extraval")
+			}
+		case "extra-rel":
+			extra := jsonapi.Rel{FromType: ts2.Name, FromName: "zzextrarel", ToType: "t", ToOne: rapid.Bool().Draw(t, "extratoone")}
+			ts2.Rels = append(ts2.Rels, extra)
 		case "attr-name":
 			i := rapid.IntRange(0, len(ts2.Attrs)-1).Draw(t, "i")
 			old := ts2.Attrs[i].Name
